@@ -242,7 +242,11 @@ impl Inv {
             ("unsafe fn", "unsafe_fn"),
         ];
         for (p, k) in pats {
-            let n = text.matches(p).count() as u64;
+            let mut n = text.matches(p).count() as u64;
+            if k == "core_ffi_ctypes" {
+                // `core::ffi::c_void` is as old as 1.30; the 1.64 gate is about c_int and friends
+                n -= text.matches(":: core :: ffi :: c_void").count() as u64;
+            }
             if n > 0 {
                 self.bump(k, n);
             }
